@@ -172,7 +172,8 @@ impl Gen {
             FaultMode::None => false,
             FaultMode::Site(k) => k == idx,
             FaultMode::Sites(a, b) => a == idx || b == idx,
-            FaultMode::Noise(n, d) => self.frng.chance(n, d),
+            // code after a terminator is rare in every other stream: boost it in the noisy one
+            FaultMode::Noise(n, d) => if class.starts_with("B13") { self.frng.chance(1, 3) } else { self.frng.chance(n, d) },
         };
         if hit {
             self.faults.push(class.to_string());
@@ -701,6 +702,12 @@ impl Gen {
         // loop-flavoured bodies end in break / continue often enough for combinations (a loop that ends
         // in `continue` around an `if` that ends in `break`, …) to occur in every run
         if loopish && last && self.rng.chance(if kind == 1 { 2 } else { 1 }, 5) {
+            // a loop-flavoured if body also ends in a (nested) return now and then
+            if kind == 1 && self.rng.chance(1, 4) {
+                if let Some(e) = self.expr(result, 0) {
+                    return Some(St::Ret(e));
+                }
+            }
             return Some(if self.rng.chance(1, 2) { St::Brk } else { St::Cont });
         }
         let r = if self.cfg.simple {
